@@ -9,7 +9,7 @@ import (
 )
 
 func init() {
-	register("R3", "the three parallel arrays of a slot table (keys, containers, needCopyOnWrite) change length and shift together: a function that re-slices or replaces one of them as a whole does so for all three, and when it shifts them with copy() the three copies use the same bounds — flags that keep their old length or move by another distance belong to the wrong chunks from then on", ruleR3)
+	register("R3", "the three parallel arrays of a slot table (keys, containers, needCopyOnWrite) change length and shift together: a function that re-slices or replaces one of them as a whole does so for all three, and when it shifts them with copy() — or copies them from another table, as ParOr does with its workers' parts — the copies use the same bounds — flags that keep their old length or move by another distance belong to the wrong chunks from then on", ruleR3)
 }
 
 func ruleR3(p *Prog) *RuleResult {
@@ -37,6 +37,7 @@ func ruleR3(p *Prog) *RuleResult {
 				dLow, sLow, sHigh ssa.Value
 			}
 			copies := map[string]map[int][]cp{}
+			cross := map[string]map[int][]cp{}
 			for _, b := range f.Blocks {
 				for _, ins := range b.Instrs {
 					switch x := ins.(type) {
@@ -56,6 +57,28 @@ func ruleR3(p *Prog) *RuleResult {
 						}
 						ds, ok1 := x.Call.Args[0].(*ssa.Slice)
 						ss, ok2 := x.Call.Args[1].(*ssa.Slice)
+						// (c) a copy from one table into another (a worker's part appended to the result at an offset):
+						// either side may be the array as a whole
+						{
+							dv, dLow := x.Call.Args[0], ssa.Value(nil)
+							if ok1 {
+								dv, dLow = ds.X, ds.Low
+							}
+							sv, sLow, sHigh := x.Call.Args[1], ssa.Value(nil), ssa.Value(nil)
+							if ok2 {
+								sv, sLow, sHigh = ss.X, ss.Low, ss.High
+							}
+							dt2, df2, okd2 := t.tableSlice(dv)
+							st2, sf2, oks2 := t.tableSlice(sv)
+							if okd2 && oks2 && dt2 != st2 && df2 == sf2 {
+								key := fmt.Sprintf("%s <- %s (block %d)", dt2, st2, x.Block().Index) // one straight-line group of copies
+								if cross[key] == nil {
+									cross[key] = map[int][]cp{}
+								}
+								cross[key][df2] = append(cross[key][df2], cp{x, dLow, sLow, sHigh})
+								continue
+							}
+						}
 						if !ok1 || !ok2 {
 							continue
 						}
@@ -96,6 +119,45 @@ func ruleR3(p *Prog) *RuleResult {
 					res.bad(c, p.ipos(any), fmt.Sprintf("the function replaces or re-slices some of the table's arrays but not %s: the arrays no longer have one length and the flags no longer line up with the containers", strings.Join(missing, ", ")))
 				} else {
 					res.ok(c, p.ipos(any), "all three arrays assigned")
+				}
+			}
+			// table-to-table copies: all three arrays, at the same offsets
+			crossN := 0
+			var keys []string
+			for k := range cross {
+				keys = append(keys, k)
+			}
+			sort.Strings(keys)
+			for _, k := range keys {
+				m := cross[k]
+				crossN++
+				c := fmt.Sprintf("%s|arrays copied from another table#%d", fname(f), crossN)
+				var any ssa.Instruction
+				for _, l := range m {
+					any = l[0].ins
+				}
+				// a copy of some of the arrays only is legitimate (clone copies keys and containers and derives the
+				// flags): what is copied must be copied with the same bounds
+				if len(m) < 2 || m[lv.fKeys] == nil {
+					continue
+				}
+				ref := m[lv.fKeys]
+				bad := ""
+				for fld, l := range m {
+					if len(l) != len(ref) {
+						bad = fmt.Sprintf("%s is copied %d time(s), keys %d time(s)", names[fld], len(l), len(ref))
+						continue
+					}
+					for i := range l {
+						if !sameIdxOrNil(l[i].dLow, ref[i].dLow) || !sameIdxOrNil(l[i].sLow, ref[i].sLow) || !sameIdxOrNil(l[i].sHigh, ref[i].sHigh) {
+							bad = fmt.Sprintf("the copy of %s at %s uses other bounds than the copy of keys at %s", names[fld], p.ipos(l[i].ins), p.ipos(ref[i].ins))
+						}
+					}
+				}
+				if bad != "" {
+					res.bad(c, p.ipos(any), bad+": the flags (or containers) land at another offset than the keys")
+				} else {
+					res.ok(c, p.ipos(any), fmt.Sprintf("%d arrays copied with the same bounds", len(m)))
 				}
 			}
 			tabs = tabs[:0]
@@ -169,4 +231,11 @@ func sameIdxExpr(a, b ssa.Value, d int) bool {
 		return ok && sameIdxExpr(x.X, y.X, d+1)
 	}
 	return false
+}
+
+func sameIdxOrNil(a, b ssa.Value) bool {
+	if a == nil || b == nil {
+		return a == nil && b == nil
+	}
+	return sameIdxExpr(a, b, 0)
 }
